@@ -34,6 +34,10 @@ class Actors:
 
         ns = {m: make_method(m) for m in METHODS}
         ns['_label'] = '?'
+
+        def on_add(self, entity, world):
+            it.life_cb(self, entity, world)
+        ns['on_add'] = on_add
         self.HRoot = type('HRoot', (), ns)
         self.Mixin = type('Mixin', (), {'helper': lambda self: None})
         self.classes = []
@@ -113,6 +117,8 @@ class Interp:
         self.depth = 0
         self.cur_plain = []         # tokens of arg-less dispatches in flight
         self.inflight_ok = set()    # tokens allowed to finish while disabled
+        self.pending_add = set()    # on_add queued: the queue holds them
+        self.die_later = set()
         self.last_exc_type = None
         for s in range(len(self.cfg['handlers'])):
             self.make(s)
@@ -143,6 +149,31 @@ class Interp:
         for rec in self.dstack:
             rec['touched'].add(s)
 
+    def life_cb(self, obj, entity, world):
+        """on_add of a World-owned handler (direct or relayed at enable)."""
+        if obj is None:
+            self.fail('C10', 'none_receiver', 'on_add relayed with '
+                      'self=None')
+        s = int(obj._label[1:])
+        self.trace.add('life', s, 'on_add')
+        self.pending_add.discard(s)
+        self.probes['on_add_delivered'] += 1
+
+    def must_be_dead_now(self, s, how):
+        """The program has just dropped its last reference to slot s: with
+        weak registration only, the object dies at this very instant."""
+        if s in self.cfg.get('cyclic', []) or s in self.pending_add:
+            return False
+        if any(slot == s for slot, _ in self.cbstack):
+            return False                # its own callback is on the stack
+        r = self.wrefs.get(s)
+        if r is not None and r() is not None:
+            self.fail('C10', 'kept_alive', f'h{s}: the last reference was '
+                      f'dropped ({how}) but the object is still alive: '
+                      f'something holds it strongly'
+                      + (' during the dispatch' if self.cbstack else ''))
+        return True
+
     # ---- callback entry point (called by the real dispatcher)
     def cb(self, obj, mname, args, kwargs):
         if obj is None:
@@ -154,6 +185,11 @@ class Interp:
         if s not in self.wrefs or self.wrefs[s]() is not obj:
             self.fail('C10', 'wrong_receiver', f'{lab}: receiver is not the '
                       f'live instance of its slot')
+        if (s not in self.handlers and s not in self.eids
+                and s not in self.limbo and s not in self.limbo_unreg
+                and s not in self.pending_add and s not in self.die_later):
+            self.fail('C10', 'called_after_gone', f'{lab}.{mname} called '
+                      f'after the program dropped its last reference')
         token = None
         if args:
             token = args[0]
@@ -236,6 +272,8 @@ class Interp:
                 e.__traceback__ = None  # no frame cycle keeping handlers
                 return e
             kind = 'dispatch_raised'
+            if 'NoneType' in str(e) and 'C10' not in owner:
+                owner = tuple(owner) + ('C10',)
             self.fail(owner, kind, f'{what} raised {type(e).__name__}: {e}')
 
     def finish(self, exc, what):
@@ -299,6 +337,9 @@ class Interp:
             ('C03',), f'create_entity(h{s})')
         self.registered.add(s)
         self.touch(s)
+        if 'on_add' in self.emap(s) and not self.enabled and e is None:
+            self.pending_add.add(s)
+            self.probes['pending_event_keeps_alive'] += 1
         if s in self.cfg.get('weak_slots', []):
             del self.handlers[s]        # the world is the only owner now
         self.finish(e, 'attach')
@@ -328,6 +369,13 @@ class Interp:
             self.faults['last_ref_dropped_' + (
                 'mid_dispatch' if self.cbstack else 'between_ops')] += 1
         e = self.guarded(thunk, ('C10', 'C03'), f'{how}(h{s})')
+        if sole and e is None:
+            if s in self.pending_add:
+                self.must_die.pop(s, None)
+                self.die_later.add(s)
+            elif self.must_be_dead_now(s, how):
+                self.must_die.pop(s, None)
+                self.probes['death_verified'] += 1
         self.finish(e, 'detach')
 
     def note_victim(self, victim):
@@ -359,8 +407,15 @@ class Interp:
             return None
         self.registered.discard(s)
         self.touch(s)
+        if s in self.pending_add:
+            self.die_later.add(s)       # a queued on_add still holds it
+            del self.handlers[s]
+            return None
         self.must_die[s] = self.wrefs[s]
         del self.handlers[s]            # refcount -> weakref callback now
+        if self.must_be_dead_now(s, 'registry reference deleted'):
+            del self.must_die[s]
+            self.probes['death_verified'] += 1
 
     def op_kill(self, op):
         """Drop the last reference to slot s by whatever route applies."""
@@ -552,6 +607,13 @@ class Interp:
                 self.judge_token(q, stable, rec, full=True)
             self.queue = []
             self.half.clear()
+            if self.pending_add and not self.cbstack:
+                self.fail(('C10', 'C02'), 'callback_missing', f'on_add '
+                          f'postponed for h{sorted(self.pending_add)} was '
+                          f'not delivered by the enabling assignment')
+            for s in sorted(self.die_later):
+                self.must_die[s] = self.wrefs[s]
+            self.die_later.clear()
             return
         # partial release: a callback raised or disabled dispatching again
         if exc is not None:
@@ -712,6 +774,8 @@ def gen_config(prop, rng):
                     maps[ev] = rng.choice(['x', 'y'])
             if not names and not maps:
                 names = ['a']
+            if prop == 'C10' and rng.random() < .35:
+                names = names + ['on_add']
             deco = {'names': names, 'maps': maps}
         hclasses.append({'base': base, 'mixin': rng.random() < .2,
                          'deco': deco})
@@ -950,5 +1014,6 @@ PROBES = {
             'release_multi'],
     'C10': ['victim_ahead', 'victim_behind', 'drop_via.registry',
             'drop_via.remove_component', 'drop_via.delete_now',
-            'cyclic_handler_collected', 'death_verified'],
+            'cyclic_handler_collected', 'death_verified',
+            'pending_event_keeps_alive', 'on_add_delivered'],
 }
